@@ -44,6 +44,7 @@ def forms(bname, i):
             anon(x=pref(f"i{o}", "c"), y=rng(sig("t"), 1, 3)),
             anon(x=idx(bref("b1", "y"), 1), y=cat(bref("b1", "x"), idx(bref("b2", "sub", "y"), 0))),
             dct(x=sig("s2"), y=rng(sig("t"), 2, 4)),
+            anon(y=sig("v"), x=sig("s2")),  # members written in another order than declared
             pref(f"i{o}", "bp"), nc(f"n{i}"), nc(f"nn{i}", f"named{i}"),
         ]
     if bname == "B2":
@@ -54,6 +55,7 @@ def forms(bname, i):
             anon(s=bref("b2", "s"), sub=bref("b2", "sub")),
             anon(s=pref(f"i{o}", "c"), sub=bref("b3", "p")),
             dct(s=sig("s"), sub=b("b1f")),
+            anon(sub=anon(y=rng(sig("t"), 0, 2), x=sig("s")), s=sig("s2")),
             pref(f"i{o}", "bp"), nc(f"n{i}"),
         ]
     if bname == "B3":
@@ -62,6 +64,7 @@ def forms(bname, i):
             anon(p=b("b1"), q=b("b1f")),
             anon(p=bref("b3", "q"), q=bref("b3", "p")),
             anon(p=anon(x=sig("s"), y=sig("v")), q=bref("b2", "sub")),
+            dct(q=b("b1"), p=bref("b2", "sub")),
             pref(f"i{o}", "bp"), nc(f"n{i}"),
         ]
     raise ValueError(bname)
